@@ -18,6 +18,8 @@ EXPLANATION = (
     "R-ITER + R-FRESH: the result is a fresh list built by an order-preserving comprehension over Environment.agents, "
     "yielding the agent of each key; the query writes nothing. Seam clause: a necessary condition for measuring "
     "distance around the seam of a wrapping world is that the function reads wrap_env and the extents.")
+EXPLANATION += (' get_agents_at has no raise statement of its own (an empty box answers []).')
+EXPLANATION += (' A path that returns every agent unfiltered is a violation.')
 ASSUMPTIONS = ["float rounding at box faces is not decided", "dict preserves insertion order"]
 
 PC = ENV + 'PositionComponent'
@@ -111,6 +113,16 @@ def run(cx: Cx):
                              f"agent {ag!r}: each matching agent must be appended once", where=cx.where(fn, apps[0].line))
                 continue
             loop_groups.setdefault(lp.node.lineno, []).append((ag, F, bool(apps), cx.where(fn, lp.line)))
+            continue
+        if isinstance(v, Fresh) and v.kind in ('call:list', 'copy') and v.items and order_class(v.items[0], agents) == 'inorder':
+            from .common import known_empty_on
+            if known_empty_on(p.cond, agents):
+                continue
+            # every resident, unfiltered: whatever the path has established about the SIZE of the box says nothing about where it lies
+            cx.violation('R-GUARD', fn.qualname, 'closed-leeway-box',
+                         f"get_agents_at returns every agent of the environment ({v!r}) on a path [{p.cond!r}]: no agent's position is "
+                         f"compared with the box, so a box of that size lying off-centre or outside the world still returns everybody",
+                         where=where, path=p.lines())
             continue
         cx.inconclusive('R-FRESH', 'get_agents_at result', f"returns {v!r}: neither a list comprehension over the agents nor a list "
                         f"filled in a loop over them", where=where, function=fn.qualname)
